@@ -100,6 +100,10 @@ func CheckPresignedSignature(ctx *fiber.Ctx, auth AuthData, secret string, debug
 		SecretAccessKey: secret,
 	}, req, unsignedPayload, service, auth.Region, date, func(options *v4.SignerOptions) {
 		options.DisableURIPathEscaping = true
+		// what the request's own headers say is not lifted into the
+		// query that is verified: X-Amz-Expires and the other presign
+		// parameters are the ones of the url
+		options.DisableHeaderHoisting = true
 		if debug {
 			options.LogSigning = true
 			options.Logger = logging.NewStandardLogger(os.Stderr)
